@@ -188,7 +188,7 @@ def session_scenarios(rnd, n):
         ident = S.identity(fw=rnd.choice([16, 20, 32, 255]), serial=rnd.choice([0, 0xFFFFFFFF, 0x0000ABCD, rnd.getrandbits(32)]),
                            vendor=rnd.choice([1, 0, 2, 65535, rnd.randint(0, 2000)]), ptype=rnd.choice([0, 12, 14, 43, 300, 65535]),
                            pcode=rnd.randint(0, 65535), minor=rnd.randint(0, 255), status=(rnd.getrandbits(8), rnd.getrandbits(8)),
-                           name="".join(rnd.choice(["A", "1", " ", "\xe9", "/", "\xc3\xa9", "\xc2\xb0"]) for _ in range(rnd.choice([0, 1, 11, 32, 120]))))
+                           name="".join(rnd.choice(["A", "1", " ", "\xe9", "/", "\xc3\xa9", "\xc2\xb0"]) for _ in range(rnd.choice([0, 1, 11, 32, 120, 230, 255])))[:255])
         ident["ip"] = [rnd.getrandbits(8) for _ in range(4)]
         ident["state"] = rnd.getrandbits(8)
         kind = rnd.choice(["cip", "logix"])
